@@ -146,7 +146,8 @@ pub fn view_len(ty: &Ty, n: usize) -> usize {
     match ty {
         Ty::FlatVec(t, _) => {
             let d = data_offset(ty);
-            let cnt = (n - d) / size(t);
+            // zero-sized elements: the element storage is empty whatever the count
+            let cnt = (n - d).checked_div(size(t)).unwrap_or(0);
             round_up(d + cnt * size(t), a)
         }
         Ty::FlatString(_) | Ty::FlexVec(..) => n,
@@ -165,7 +166,8 @@ pub fn capacity(ty: &Ty, n: usize) -> usize {
     let n = round_down(n, align(ty));
     let d = data_offset(ty);
     match ty {
-        Ty::FlatVec(t, l) => ((n - d) / size(t)).min(l.max().min(usize::MAX as u128) as usize),
+        // zero-sized elements take no room: only the length type bounds their number
+        Ty::FlatVec(t, l) => (n - d).checked_div(size(t)).unwrap_or(usize::MAX).min(l.max().min(usize::MAX as u128) as usize),
         Ty::FlatString(l) => (n - d).min(l.max().min(usize::MAX as u128) as usize),
         _ => panic!("harness: capacity of non-vector"),
     }
